@@ -1,7 +1,13 @@
 // C07 harness: drives the real StateSpace::interpolate of libompl (built from the current tree)
 // through the line protocol (header `spaceinterp`).
 //
-//   space <space>                 -> ok
+//   space <space>                 -> ok      (grammar of common/spaces.h plus, handled here: `spacetime <vmax> <tw> u|b <lo> <hi>
+//                                    <space>` = SpaceTimeStateSpace, `empty` = EmptyStateSpace, and at top level only
+//                                    `cfw <space>` = CForestStateSpaceWrapper around the space)
+//   mutate <space>                -> ok      HISTORY: setup() is called on the current space object, then its bounds and
+//                                    weights are changed IN PLACE (setBounds / setSubspaceWeight) to those of <space>
+//                                    (same structure); later interpolates use the mutated object
+//   sanity                        -> sanity ok | sanity throws <msg>     the library's own StateSpace::sanityChecks()
 //   interp <from> <to> <t>        -> r <state> | a1 <state> | a2 <state> | sb b | ef b | et b | sbf b | sbt b
 //                                    | dfr <d> | dft <d> | drt <d> | ext <d> | enf b
 //        r  = interpolate(from, to, t, out)   with a distinct output state
@@ -15,7 +21,7 @@
 //        csb = satisfiesBounds(r_c) | cef/cet = equalStates(r_c, from_c/to_c) | cdfr/cdrt = distance(from_c, r_c)
 //        / (r_c, to_c) | cext = getMaximumExtent() of the component
 //        Before the call with a distinct output every leaf of `out` is filled with an out-of-bounds sentinel
-//        (7.77e77 / 77 / (7,7,7,7) / upper+1000), so a component that interpolate does not write is visible.
+//        (7.77e77 / 77 / (7,7,7,7) / upper+1000, or lower-1000 next to INT_MAX), so a component that interpolate does not write is visible.
 //   interp2 <from> <to> <s> <u>   -> s3 <state> | r <state> | direct <state> | ra <state> | d <d> | sbs3 b | ext <d>
 //        s3 = interpolate(from,to,s); r = interpolate(s3,to,u); direct = interpolate(from,to,s+(1-s)*u);
 //        ra = interpolate(s3',to,u,s3') aliased as StateSpace::sanityChecks does; d = distance(r, direct);
@@ -25,6 +31,11 @@
 // States are printed as their leaf values (doubles as u64 bit patterns).  No hooks in /repo.
 #include "common/spaces.h"
 #include <ompl/util/Exception.h>
+#include <ompl/util/RandomNumbers.h>
+#include <sanitizer/lsan_interface.h>
+#include <ompl/base/spaces/SpaceTimeStateSpace.h>
+#include <ompl/base/spaces/EmptyStateSpace.h>
+#include <ompl/geometric/planners/cforest/CForestStateSpaceWrapper.h>
 
 namespace ob = ompl::base;
 
@@ -121,9 +132,126 @@ static void poison(const ob::StateSpace *sp, ob::State *st)
     else if (dynamic_cast<const ob::TimeStateSpace *>(sp))
         st->as<ob::TimeStateSpace::StateType>()->position = 7.77e77;
     else if (auto d = dynamic_cast<const ob::DiscreteStateSpace *>(sp))
-        st->as<ob::DiscreteStateSpace::StateType>()->value = d->getUpperBound() + 1000;
+    {
+        int hi = d->getUpperBound(), lo = d->getLowerBound();
+        st->as<ob::DiscreteStateSpace::StateType>()->value =
+            hi <= 2147483647 - 1000 ? hi + 1000 : (lo >= -2147483647 - 1 + 1000 ? lo - 1000 : hi);
+    }
     else
         throw vp::ParseError("unsupported leaf space " + sp->getName());
+}
+
+// ---- spaces this engine adds to the shared grammar -----------------------------------------------
+static ob::StateSpacePtr parseSpaceX(const std::vector<std::string> &t, size_t &i)
+{
+    if (i >= t.size())
+        throw vp::ParseError("eol");
+    const std::string k = t[i];
+    if (k == "cmp")
+    {
+        ++i;
+        unsigned n = vp::needN(t, i);
+        auto s = std::make_shared<ob::CompoundStateSpace>();
+        for (unsigned j = 0; j < n; ++j)
+        {
+            double w = vp::needF(t, i);
+            auto sub = parseSpaceX(t, i);
+            sub->setName(sub->getName() + "_c" + std::to_string(j));
+            s->addSubspace(sub, w);
+        }
+        s->lock();
+        return s;
+    }
+    if (k == "wrap")
+    {
+        ++i;
+        return std::make_shared<ob::WrapperStateSpace>(parseSpaceX(t, i));
+    }
+    if (k == "spacetime")
+    {
+        ++i;
+        double vmax = vp::needF(t, i), tw = vp::needF(t, i);
+        if (i >= t.size())
+            throw vp::ParseError("eol");
+        std::string m = t[i++];
+        double lo = 0, hi = 0;
+        if (m == "b")
+        {
+            lo = vp::needF(t, i);
+            hi = vp::needF(t, i);
+        }
+        else if (m != "u")
+            throw vp::ParseError("spacetime");
+        auto s = std::make_shared<ob::SpaceTimeStateSpace>(parseSpaceX(t, i), vmax, tw);
+        if (m == "b")
+            s->setTimeBounds(lo, hi);
+        return s;
+    }
+    if (k == "empty")
+    {
+        ++i;
+        return std::make_shared<ob::EmptyStateSpace>();
+    }
+    return vp::parseSpace(t, i);
+}
+
+// HISTORY: give the existing space object the bounds / weights of `n` (same structure), in place
+static void copyParams(ob::StateSpace *e, const ob::StateSpace *n)
+{
+    if (auto we = dynamic_cast<ob::WrapperStateSpace *>(e))
+    {
+        auto wn = dynamic_cast<const ob::WrapperStateSpace *>(n);
+        if (!wn)
+            throw vp::ParseError("structure");
+        copyParams(we->getSpace().get(), wn->getSpace().get());
+        return;
+    }
+    if (auto ce = dynamic_cast<ob::CompoundStateSpace *>(e))
+    {
+        auto cn = dynamic_cast<const ob::CompoundStateSpace *>(n);
+        if (!cn || cn->getSubspaceCount() != ce->getSubspaceCount())
+            throw vp::ParseError("structure");
+        for (unsigned j = 0; j < ce->getSubspaceCount(); ++j)
+        {
+            ce->setSubspaceWeight(j, cn->getSubspaceWeight(j));
+            copyParams(ce->getSubspace(j).get(), cn->getSubspace(j).get());
+        }
+        return;
+    }
+    if (auto re = dynamic_cast<ob::RealVectorStateSpace *>(e))
+    {
+        auto rn = dynamic_cast<const ob::RealVectorStateSpace *>(n);
+        if (!rn || rn->getDimension() != re->getDimension())
+            throw vp::ParseError("structure");
+        bool ok = true;
+        for (unsigned j = 0; j < rn->getDimension(); ++j)
+            if (!(rn->getBounds().low[j] < rn->getBounds().high[j]))
+                ok = false;
+        if (ok)
+            re->setBounds(rn->getBounds());
+        else
+            const_cast<ob::RealVectorBounds &>(re->getBounds()) = rn->getBounds();
+        return;
+    }
+    if (auto te = dynamic_cast<ob::TimeStateSpace *>(e))
+    {
+        auto tn = dynamic_cast<const ob::TimeStateSpace *>(n);
+        if (!tn || (te->isBounded() && !tn->isBounded()))
+            throw vp::ParseError("structure");
+        if (tn->isBounded())
+            te->setBounds(tn->getMinTimeBound(), tn->getMaxTimeBound());
+        return;
+    }
+    if (auto de = dynamic_cast<ob::DiscreteStateSpace *>(e))
+    {
+        auto dn = dynamic_cast<const ob::DiscreteStateSpace *>(n);
+        if (!dn)
+            throw vp::ParseError("structure");
+        de->setBounds(dn->getLowerBound(), dn->getUpperBound());
+        return;
+    }
+    if (typeid(*e) != typeid(*n))
+        throw vp::ParseError("structure");
 }
 
 struct Tmp
@@ -151,7 +279,9 @@ int main()
         std::cout << "bad-header\n";
         return 2;
     }
-    ob::StateSpacePtr sp;
+    ompl::RNG::setSeed(20260926);  // sanityChecks() draws samples: deterministic
+    ob::StateSpacePtr sp;     // the space whose interpolate / satisfiesBounds / … are called
+    ob::StateSpacePtr inner;  // kept alive for `cfw`; state I/O goes through it (the wrapper shares its states)
     while (vp::readLine(line))
     {
         auto t = vp::tokens(line);
@@ -162,18 +292,64 @@ int main()
             if (t[0] == "space")
             {
                 size_t i = 1;
-                auto s = vp::parseSpace(t, i);
+                bool cfw = t.size() > 1 && t[1] == "cfw";
+                if (cfw)
+                    ++i;
+                auto s = parseSpaceX(t, i);
                 if (i != t.size())
                     throw vp::ParseError("trailing");
-                sp = s;
+                inner = s;
+                sp = cfw ? ob::StateSpacePtr(std::make_shared<ob::CForestStateSpaceWrapper>(nullptr, s.get())) : s;
                 std::cout << "ok\n";
+            }
+            else if (t[0] == "mutate" && sp)
+            {
+                size_t i = 1;
+                if (t.size() > 1 && t[1] == "cfw")
+                    ++i;
+                auto n = parseSpaceX(t, i);
+                if (i != t.size())
+                    throw vp::ParseError("trailing");
+                try
+                {
+                    inner->setup();
+                }
+                catch (const ompl::Exception &)
+                {
+                }
+                copyParams(inner.get(), n.get());
+                std::cout << "ok\n";
+            }
+            else if (t[0] == "sanity" && t.size() == 1 && sp)
+            {
+                std::string res = "ok";
+                // sanityChecks() allocates its test states with raw allocState() and leaks them when it throws:
+                // not this property's business, so leak detection is suspended for the call
+                __lsan_disable();
+                try
+                {
+                    sp->sanityChecks();
+                }
+                catch (const ompl::Exception &e)
+                {
+                    res = std::string("throws ") + e.what();
+                }
+                catch (const char *e)
+                {
+                    res = std::string("throws ") + e;
+                }
+                __lsan_enable();
+                for (auto &c : res)
+                    if (c == '|' || c == '\n')
+                        c = '/';
+                std::cout << "sanity " << res << "\n";
             }
             else if (t[0] == "interp" && sp)
             {
                 size_t i = 1;
                 Tmp from(sp), to(sp), out(sp), f(sp), g(sp);
-                vp::parseStateInto(sp.get(), from.s, t, i);
-                vp::parseStateInto(sp.get(), to.s, t, i);
+                vp::parseStateInto(inner.get(), from.s, t, i);
+                vp::parseStateInto(inner.get(), to.s, t, i);
                 double tt = vp::needF(t, i);
                 if (i != t.size())
                     throw vp::ParseError("trailing");
@@ -185,13 +361,13 @@ int main()
                 sp->copyState(f.s, from.s);
                 sp->copyState(g.s, to.s);
                 // sentinel in the distinct output: a component that interpolate does not write shows up
-                poison(sp.get(), out.s);
+                poison(inner.get(), out.s);
                 enforced = false;
                 sp->interpolate(from.s, to.s, tt, out.s);
                 sp->interpolate(f.s, to.s, tt, f.s);
                 sp->interpolate(from.s, g.s, tt, g.s);
-                std::cout << "r " << vp::showState(sp, out.s) << " | a1 " << vp::showState(sp, f.s) << " | a2 "
-                          << vp::showState(sp, g.s) << " | sb " << b01(sp->satisfiesBounds(out.s)) << " | ef "
+                std::cout << "r " << vp::showState(inner, out.s) << " | a1 " << vp::showState(inner, f.s) << " | a2 "
+                          << vp::showState(inner, g.s) << " | sb " << b01(sp->satisfiesBounds(out.s)) << " | ef "
                           << b01(sp->equalStates(out.s, from.s)) << " | et " << b01(sp->equalStates(out.s, to.s))
                           << " | sbf " << b01(sp->satisfiesBounds(from.s)) << " | sbt "
                           << b01(sp->satisfiesBounds(to.s)) << " | dfr " << dist(sp, from.s, out.s)
@@ -200,7 +376,7 @@ int main()
                           << " | enf " << b01(enforced);
                 {
                     std::string csb, cef, cet, cdfr, cdrt, cext;
-                    forUnits(sp.get(), {out.s, from.s, to.s},
+                    forUnits(inner.get(), {out.s, from.s, to.s},
                              [&](const ob::StateSpace *u, const std::vector<const ob::State *> &x) {
                                  csb += " " + b01(u->satisfiesBounds(x[0]));
                                  cef += " " + b01(u->equalStates(x[0], x[1]));
@@ -218,8 +394,8 @@ int main()
             {
                 size_t i = 1;
                 Tmp from(sp), to(sp), s3(sp), r(sp), direct(sp), ra(sp);
-                vp::parseStateInto(sp.get(), from.s, t, i);
-                vp::parseStateInto(sp.get(), to.s, t, i);
+                vp::parseStateInto(inner.get(), from.s, t, i);
+                vp::parseStateInto(inner.get(), to.s, t, i);
                 double s = vp::needF(t, i);
                 double u = vp::needF(t, i);
                 if (i != t.size())
@@ -229,23 +405,23 @@ int main()
                     std::cout << "oob-input\n";
                     continue;
                 }
-                poison(sp.get(), s3.s);
-                poison(sp.get(), r.s);
-                poison(sp.get(), direct.s);
+                poison(inner.get(), s3.s);
+                poison(inner.get(), r.s);
+                poison(inner.get(), direct.s);
                 enforced = false;
                 sp->interpolate(from.s, to.s, s, s3.s);
                 sp->interpolate(s3.s, to.s, u, r.s);
                 sp->interpolate(from.s, to.s, s + (1.0 - s) * u, direct.s);
                 sp->copyState(ra.s, s3.s);
                 sp->interpolate(ra.s, to.s, u, ra.s);
-                std::cout << "s3 " << vp::showState(sp, s3.s) << " | r " << vp::showState(sp, r.s) << " | direct "
-                          << vp::showState(sp, direct.s) << " | ra " << vp::showState(sp, ra.s) << " | d "
+                std::cout << "s3 " << vp::showState(inner, s3.s) << " | r " << vp::showState(inner, r.s) << " | direct "
+                          << vp::showState(inner, direct.s) << " | ra " << vp::showState(inner, ra.s) << " | d "
                           << dist(sp, r.s, direct.s) << " | sbs3 " << b01(sp->satisfiesBounds(s3.s)) << " | sbr "
                           << b01(sp->satisfiesBounds(r.s)) << " | sbd " << b01(sp->satisfiesBounds(direct.s))
                           << " | ext " << vp::bits(sp->getMaximumExtent()) << " | enf " << b01(enforced);
                 {
                     std::string cd, cext;
-                    forUnits(sp.get(), {r.s, direct.s},
+                    forUnits(inner.get(), {r.s, direct.s},
                              [&](const ob::StateSpace *u, const std::vector<const ob::State *> &x) {
                                  cd += " " + dist(u, x[0], x[1]);
                                  cext += " " + vp::bits(u->getMaximumExtent());
